@@ -22,6 +22,7 @@ from symoas.sym import S, ZERO, ONE, Sym, bor, eq, evalf, ge, gt, le, lt, ne, re
 PID = "C20"
 HERE = os.path.dirname(os.path.abspath(__file__))
 CONTRACTS = os.path.join(HERE, "c20_contracts.py")
+HERE_ROOT = os.path.dirname(HERE)
 
 
 # ------------------------------------------------------------------------------------- CrossHair
@@ -36,12 +37,12 @@ def contract_functions():
 
 
 def run_crosshair(name, line, per_cond):
-    env = dict(os.environ, PYTHONPATH="/repo:/verif", OPENMDAO_REPORTS="0")
+    env = dict(os.environ, PYTHONPATH="%s:%s" % (os.environ.get("OAS_REPO", "/repo"), HERE_ROOT), OPENMDAO_REPORTS="0")
     exe = os.path.join(os.path.dirname(sys.executable), "crosshair")
     t0 = time.time()
     try:
         p = subprocess.run([exe, "check", "--report_all", "--per_condition_timeout", str(per_cond), "%s:%d" % (CONTRACTS, line)],
-                           capture_output=True, text=True, timeout=per_cond * 3 + 60, env=env, cwd="/verif")
+                           capture_output=True, text=True, timeout=per_cond * 3 + 60, env=env, cwd=HERE_ROOT)
         out = (p.stdout + p.stderr).strip()
     except subprocess.TimeoutExpired:
         out = "timeout"
